@@ -36,7 +36,12 @@ const (
 	allowedExtCSVGZ = ".csv.gz"
 )
 
-func UploadLookupFile(ctx *fasthttp.RequestCtx) {
+func hasLookupFileExt(fileName string) bool {
+	lowerFileName := strings.ToLower(fileName)
+	return strings.HasSuffix(lowerFileName, allowedExtCSV) || strings.HasSuffix(lowerFileName, allowedExtCSVGZ)
+}
+
+func UploadLookupFile(ctx *fasthttp.RequestCtx, myid int64) {
 	fileName := string(ctx.FormValue("name"))
 	if fileName == "" {
 		log.Error("UploadLookupFile: File name is required")
@@ -76,7 +81,7 @@ func UploadLookupFile(ctx *fasthttp.RequestCtx) {
 		}
 	}
 
-	fullLookupsDir := config.GetLookupPath()
+	fullLookupsDir := config.GetLookupPathForOrg(myid)
 	if err := os.MkdirAll(fullLookupsDir, os.ModePerm); err != nil {
 		log.Errorf("UploadLookupFile: Error creating lookups directory: %v", err)
 		ctx.Error("Error creating lookups directory", fasthttp.StatusInternalServerError)
@@ -130,8 +135,8 @@ func UploadLookupFile(ctx *fasthttp.RequestCtx) {
 	fmt.Fprintf(ctx, "File uploaded successfully: %s", fileName)
 }
 
-func GetAllLookupFiles(ctx *fasthttp.RequestCtx) {
-	fullLookupsDir := config.GetLookupPath()
+func GetAllLookupFiles(ctx *fasthttp.RequestCtx, myid int64) {
+	fullLookupsDir := config.GetLookupPathForOrg(myid)
 
 	if err := os.MkdirAll(fullLookupsDir, os.ModePerm); err != nil {
 		log.Errorf("GetAllLookupFiles: Error creating lookups directory: %v", err)
@@ -170,11 +175,17 @@ func GetAllLookupFiles(ctx *fasthttp.RequestCtx) {
 	}
 }
 
-func GetLookupFile(ctx *fasthttp.RequestCtx) {
+func GetLookupFile(ctx *fasthttp.RequestCtx, myid int64) {
 	lookupFilename := utils.ExtractParamAsString(ctx.UserValue("lookupFilename"))
 
-	lookupsDir := config.GetLookupPath()
+	lookupsDir := config.GetLookupPathForOrg(myid)
 	filePath := filepath.Join(lookupsDir, lookupFilename)
+
+	// every lookup file is a .csv or .csv.gz file; the directory also holds the sub-directories of other orgs
+	if !hasLookupFileExt(lookupFilename) {
+		ctx.Error("File not found", fasthttp.StatusNotFound)
+		return
+	}
 
 	file, err := os.Open(filePath)
 	if err != nil {
@@ -198,11 +209,16 @@ func GetLookupFile(ctx *fasthttp.RequestCtx) {
 	ctx.SetStatusCode(fasthttp.StatusOK)
 }
 
-func DeleteLookupFile(ctx *fasthttp.RequestCtx) {
+func DeleteLookupFile(ctx *fasthttp.RequestCtx, myid int64) {
 	lookupFilename := utils.ExtractParamAsString(ctx.UserValue("lookupFilename"))
 
-	lookupsDir := config.GetLookupPath()
+	lookupsDir := config.GetLookupPathForOrg(myid)
 	filePath := filepath.Join(lookupsDir, lookupFilename)
+
+	if !hasLookupFileExt(lookupFilename) {
+		ctx.Error("File not found", fasthttp.StatusNotFound)
+		return
+	}
 
 	err := os.Remove(filePath)
 	if err != nil {
